@@ -12,7 +12,7 @@ import (
 
 func init() {
 	register(&Rule{ID: "WR1", Min: 4, Run: ruleWR1,
-		Doc: "replace-protocol: (a) no truncating open (O_TRUNC/Create/WriteFile) targets the live log: a LOG-class target must be <live>+const suffix; (b) that temp value is the source of the os.Rename onto the live path and the rename is dominated by the temp writer's nil-error edge; (c) in the temp writer every non-error return passes the nil edge of Flush, and every buffered Write error is checked; (d) every writable open of the temp file truncates it (a stale temp left by a killed writer must not survive into the renamed file)"})
+		Doc: "replace-protocol: (a) no truncating open (O_TRUNC/Create/WriteFile) targets the live log: a LOG-class target must be <live>+const suffix; (b) that temp value is the source of the os.Rename onto the live path and the rename is dominated by the temp writer's nil-error edge; (c) in the temp writer every non-error return passes the nil edge of Flush, and every buffered Write error is checked; (d) every writable open of the temp file truncates it (a stale temp left by a killed writer must not survive into the renamed file); the temp may instead be an os.CreateTemp file in filepath.Dir(<live>) renamed by its Name(), filled by a writer handed the handle (or its name) whose success dominates the rename, and - (f) - given its mode by a Chmod that dominates the rename, since CreateTemp always creates 0600 and the log every other path creates is 0644; (e) the live log is never unlinked or truncated by path"})
 	register(&Rule{ID: "WR2", Min: 3, Run: ruleWR2,
 		Doc: "history-grows: (a) every writable open of the live log is O_APPEND without O_TRUNC (or a create-if-absent whose handle is only closed); (b) the replace primitive (rename onto the log) is reachable only from compact and from prefix-preserving wrappers whose new content is append(append(fresh, existing...), appended...) with `existing` the unmodified result of reading the same path in the same function"})
 	register(&Rule{ID: "WR3", Min: 1, Run: ruleWR3,
@@ -20,7 +20,7 @@ func init() {
 	register(&Rule{ID: "WR4", Min: 1, Run: ruleWR4,
 		Doc: "append-tail-aware: in the append primitive the O_APPEND open is reachable only on the edge where a tail inspection of the same path (helper that opens the path and reads its last byte, or Stat/ReadAt/Seek on the handle) reported a terminated tail; the unterminated edge leads to the prefix-preserving atomic rewrite"})
 	register(&Rule{ID: "WR6", Min: 4, Run: ruleWR6,
-		Doc: "reader-single-stream: the log reader opens the file once and its handle flows only into one sequential scanner (no Stat/ReadAt/Seek/second read); an unparsable final line is tolerated (events, nil) on some path, and the flag deciding tolerance is written only inside the scanner's split function from the bytes the scanner hands out; list and show load the log exactly once, not in a loop"})
+		Doc: "reader-single-stream: the log reader opens the file once and its handle flows only into one sequential scanner (no Stat/ReadAt/Seek/second read); an unparsable final line is tolerated (events, nil) on some path, and the flag deciding tolerance is written only inside the scanner's split function from the bytes the scanner hands out; list and show load the log exactly once, not in a loop; (vi) the scanner's split function hands on every line it is given: it never advances past bytes without returning them as a token (a reader that skips over-long or otherwise unwelcome lines makes items vanish while the events that refer to them stay)"})
 }
 
 // effect site helpers ----------------------------------------------------
@@ -159,6 +159,9 @@ func ruleWR1(c *Ctx) {
 			}
 		}
 		if !okShape {
+			if c.createTempProtocol(e.Fn, e.Call, src, dst, fn, construct, pos) {
+				continue
+			}
 			c.bad(fn, construct+"|b:temp-then-rename", pos, "rename source "+c.canon(src)+" is not <destination>+const suffix")
 			continue
 		}
@@ -195,6 +198,101 @@ func ruleWR1(c *Ctx) {
 	if rn == 0 {
 		c.bad("<module>", "rename#0|b:temp-then-rename", "-", "no rename onto a LOG-class path found: the atomic replace primitive is gone")
 	}
+}
+
+// createTempProtocol: the other way to get a temp sibling - os.CreateTemp(filepath.Dir(dst), pattern), renamed by its
+// Name(). The file is fresh and exclusive (nothing stale to truncate), lies in the destination's directory (the rename
+// stays within one file system), is filled by a writer handed the handle whose success dominates the rename, and - since
+// CreateTemp always creates mode 0600 whatever the umask - is given its mode explicitly before it becomes the log: a log
+// that turns owner-only at its first rewrite is unreadable to every reader under another account from then on.
+func (c *Ctx) createTempProtocol(f *ssa.Function, rename ssa.CallInstruction, src, dst ssa.Value, fn, construct, pos string) bool {
+	nameCall, ok := strip(src).(*ssa.Call)
+	if !ok || calleeFullName(&nameCall.Call) != "(*os.File).Name" || len(nameCall.Call.Args) != 1 {
+		return false
+	}
+	tmp := resolve(nameCall.Call.Args[0])
+	ex, ok := tmp.(*ssa.Extract)
+	if !ok || ex.Index != 0 {
+		return false
+	}
+	ct, ok := ex.Tuple.(*ssa.Call)
+	if !ok || calleeFullName(&ct.Call) != "os.CreateTemp" {
+		return false
+	}
+	sameHandle := func(v ssa.Value) bool { return resolve(v) == tmp }
+	// same directory as the destination
+	inDir := false
+	if dc, ok := resolve(ct.Call.Args[0]).(*ssa.Call); ok && calleeFullName(&dc.Call) == "path/filepath.Dir" && c.canon(dc.Call.Args[0]) == c.canon(dst) {
+		inDir = true
+	}
+	if !inDir {
+		c.bad(fn, construct+"|b:temp-then-rename", pos, "the temp file is created in "+c.canon(ct.Call.Args[0])+", not in filepath.Dir(<destination>): the rename may cross file systems and is then not atomic (or fails)")
+		return true
+	}
+	// the writer: a module function handed the handle, or write calls on the handle right here
+	var writer *ssa.Call
+	for _, call := range callsIn(f) {
+		cv, isCall := call.(*ssa.Call)
+		cal := calleeOf(call.Common())
+		if !isCall || cal == nil || !c.InModule(cal) || cal.Blocks == nil {
+			continue
+		}
+		for i, a := range call.Common().Args {
+			if sameHandle(a) && errorResultIndex(call) >= 0 {
+				writer = cv
+			}
+			// or handed the file's name and reopening it (truncating) by that name
+			if c.canon(a) == c.canon(src) {
+				for _, te := range c.F.Effects {
+					if te.Fn == cal && strings.HasSuffix(te.Class, "trunc-open") {
+						if prm, ok := resolve(te.Path).(*ssa.Parameter); ok && paramIndex(prm) == i {
+							writer = cv
+						}
+					}
+				}
+			}
+		}
+	}
+	if writer == nil {
+		c.bad(fn, construct+"|b:temp-then-rename", pos, "no temp-writer call (module function handed the os.CreateTemp handle) before the rename")
+		return true
+	}
+	dom := mustPassEdges(f, rename.Block(), nilErrEdges(f, writer))
+	c.check(dom, fn, construct+"|b:temp-then-rename", pos, "rename is dominated by the temp writer's nil-error edge; source is the Name() of an os.CreateTemp file in the destination's directory",
+		"rename is reachable without the temp writer having succeeded (a failed or skipped write is renamed over the log)")
+	c.checkTempWriter(calleeOf(writer.Common()))
+	// the mode
+	var chmod *ssa.Call
+	for _, call := range callsIn(f) {
+		cv, isCall := call.(*ssa.Call)
+		if !isCall {
+			continue
+		}
+		switch calleeFullName(call.Common()) {
+		case "(*os.File).Chmod":
+			if sameHandle(call.Common().Args[0]) {
+				chmod = cv
+			}
+		case "os.Chmod":
+			if c.canon(call.Common().Args[0]) == c.canon(src) {
+				chmod = cv
+			}
+		}
+	}
+	modeOK, why := false, "the file os.CreateTemp made (always mode 0600) is renamed over the log without a Chmod: after the first rewrite (compact, plan, tail repair) the log is owner-only, and list/show run under any other account fail where they worked before"
+	if chmod != nil {
+		if !mustPassEdges(f, rename.Block(), nilErrEdges(f, chmod)) {
+			why = "the Chmod of the temp file does not dominate the rename on its success edge"
+		} else {
+			modeOK = true
+			margs := chmod.Call.Args
+			if k, isK := constInt(margs[len(margs)-1]); isK && k&0o044 != 0o044 {
+				modeOK, why = false, fmt.Sprintf("the temp file is given mode %#o: the log every other path creates is 0644", k)
+			}
+		}
+	}
+	c.check(modeOK, fn, construct+"|f:temp-mode-set", pos, "the CreateTemp file is given its mode before the rename", why)
+	return true
 }
 
 func (c *Ctx) checkTempWriter(w *ssa.Function) {
@@ -286,6 +384,24 @@ func handleUsers(h ssa.Value) []ssa.Instruction {
 						walk(ld, d+1)
 					}
 					continue
+				}
+				// kept in a field of a small wrapper object (logFile{f: file}): whatever reads that field of that type
+				if fa, isFA := st.Addr.(*ssa.FieldAddr); isFA && curProg != nil {
+					tn := namedTypeName(fa.X.Type())
+					if strings.HasPrefix(tn, "ergo.") {
+						for _, g := range curProg.Fns {
+							eachInstr(g, func(r2 instrRef) {
+								ld, ok := r2.In.(*ssa.UnOp)
+								if !ok || ld.Op != token.MUL {
+									return
+								}
+								if fa2, ok := ld.X.(*ssa.FieldAddr); ok && fa2.Field == fa.Field && namedTypeName(fa2.X.Type()) == tn {
+									walk(ld, d+1)
+								}
+							})
+						}
+						continue
+					}
 				}
 			}
 			out = append(out, r)
@@ -393,6 +509,47 @@ func ruleWR2(c *Ctx) {
 					va = append(va, vArg{a, -1})
 				}
 				wsites = append(wsites, wsite{ws.Fn, ws.Call, va})
+			}
+			// a site inside a plain pass-through helper (commitPlan(path, existing, appended) = appendEventsAtomically(path,
+			// existing, appended)): judged at that helper's own call sites, with its parameters replaced by their arguments
+			for depth := 0; depth < 2; depth++ {
+				var next []wsite
+				changed := false
+				for _, ws := range wsites {
+					through := ws.fn.Parent() == nil && len(c.callers[ws.fn]) > 0
+					idxs := make([]int, len(ws.args))
+					for k, a := range ws.args {
+						p, isP := resolve(a.V).(*ssa.Parameter)
+						if a.Field >= 0 || !isP || p.Parent() != ws.fn {
+							through = false
+							break
+						}
+						idxs[k] = paramIndex(p)
+					}
+					if !through {
+						next = append(next, ws)
+						continue
+					}
+					changed = true
+					for _, cs2 := range c.callers[ws.fn] {
+						var va []vArg
+						okArgs := true
+						for _, pi := range idxs {
+							if pi < 0 || pi >= len(cs2.Call.Common().Args) {
+								okArgs = false
+								break
+							}
+							va = append(va, vArg{cs2.Call.Common().Args[pi], -1})
+						}
+						if okArgs {
+							next = append(next, wsite{cs2.Fn, cs2.Call, va})
+						}
+					}
+				}
+				wsites = next
+				if !changed {
+					break
+				}
 			}
 			canonV := func(a vArg) string {
 				if a.Field < 0 {
@@ -908,6 +1065,37 @@ func ruleWR6(c *Ctx) {
 			for _, f := range funcValuesOf(call.Common().Args[1], 0) {
 				splitFns[f] = true
 			}
+		}
+		// the split function may look at what the line splitter found, but hands it on unchanged: every line of the log
+		// reaches the decoder. A split function that swallows input (a nil token with a positive advance of its own, to
+		// `skip` an over-long or unwanted line) makes events vanish without an error
+		for sf := range splitFns {
+			if sf.Blocks == nil {
+				continue // bufio.ScanLines itself
+			}
+			badSplit := ""
+			var base *ssa.Call
+			for _, call := range callsNamed(sf, "bufio.ScanLines") {
+				if cv, ok := call.(*ssa.Call); ok {
+					base = cv
+				}
+			}
+			for _, r := range returnsOf(sf) {
+				if len(r.Results) != 3 {
+					continue
+				}
+				for i, res := range r.Results {
+					ex, ok := strip(res).(*ssa.Extract)
+					if !ok || base == nil || ex.Tuple != ssa.Value(base) || ex.Index != i {
+						badSplit = c.Pos(r.Pos())
+					}
+				}
+			}
+			if base == nil {
+				badSplit = c.Pos(sf.Pos())
+			}
+			c.check(badSplit == "", fn, "vi:split-hands-lines-on", c.Pos(sf.Pos()), "the split function returns exactly what bufio.ScanLines found",
+				"the scanner's split function has a return (at "+badSplit+") that is not bufio.ScanLines' own (advance, token, error): it can consume input without handing it out as a line, so an event of the log - an over-long create line, say - is dropped silently and everything that refers to it is replayed without it")
 		}
 		if len(flagCells) == 0 {
 			c.bad(fn, "iii:flag-from-scanned-bytes", c.Pos(tolerant.Pos()), "tolerance of an unparsable final line is not conditioned on a newline flag derived from the scanned bytes (unconditional tolerance hides a corrupt terminated line; a probe outside the scan races with writers)")
